@@ -51,14 +51,14 @@ code = "".join([
     // The in-bounds, aspect and centering clauses need the rounding behaviour of a division followed by a multiplication;
     // SAT does not settle them even for sizes <= 255 (no answer in 15 min per clause), so they are evaluated on a grid of
     // concrete sizes and centerings (everything constant-folds).
-    const SIZES: [u32; 8] = [1, 2, 3, 5, 7, 64, 255, 65535];
+    const SIZES: [u32; 6] = [1, 2, 3, 7, 255, 65535];
     const CENTER: [f64; 5] = [0.0, 0.5, 0.3, -2.0, 7.5];
 
     fn grid_row(sw: u32, sh: u32) {
         let (w, h) = (sw as f64, sh as f64);
         let view = crate::fv_support::FvDims { w: sw, h: sh };
         let mut k = 0;
-        while k < 8 { let mut l = 0; while l < 8 { let mut c = 0; while c < 5 {
+        while k < 6 { let mut l = 0; while l < 6 { let mut c = 0; while c < 5 {
             let (dw, dh) = (SIZES[k], SIZES[l]);
             let (cx, cy) = (CENTER[c], CENTER[(c + 2) % 5]);
             let b = CropBox::fit_src_into_dst_size(sw, sh, dw, dh, Some((cx, cy)));
@@ -78,21 +78,19 @@ code = "".join([
             c += 1; } l += 1; } k += 1; }
     }
 
-    #[kani::proof] #[kani::unwind(10)] fn g6_grid_src_0() { let mut j = 0; while j < 8 { grid_row(SIZES[0], SIZES[j]); j += 1; } }
+    #[kani::proof] #[kani::unwind(8)] fn g6_grid_src_0() { let mut j = 0; while j < 6 { grid_row(SIZES[0], SIZES[j]); j += 1; } }
 
-    #[kani::proof] #[kani::unwind(10)] fn g6_grid_src_1() { let mut j = 0; while j < 8 { grid_row(SIZES[1], SIZES[j]); j += 1; } }
+    #[kani::proof] #[kani::unwind(8)] fn g6_grid_src_1() { let mut j = 0; while j < 6 { grid_row(SIZES[1], SIZES[j]); j += 1; } }
 
-    #[kani::proof] #[kani::unwind(10)] fn g6_grid_src_2() { let mut j = 0; while j < 8 { grid_row(SIZES[2], SIZES[j]); j += 1; } }
+    #[kani::proof] #[kani::unwind(8)] fn g6_grid_src_2() { let mut j = 0; while j < 6 { grid_row(SIZES[2], SIZES[j]); j += 1; } }
 
-    #[kani::proof] #[kani::unwind(10)] fn g6_grid_src_3() { let mut j = 0; while j < 8 { grid_row(SIZES[3], SIZES[j]); j += 1; } }
+    #[kani::proof] #[kani::unwind(8)] fn g6_grid_src_3() { let mut j = 0; while j < 6 { grid_row(SIZES[3], SIZES[j]); j += 1; } }
 
-    #[kani::proof] #[kani::unwind(10)] fn g6_grid_src_4() { let mut j = 0; while j < 8 { grid_row(SIZES[4], SIZES[j]); j += 1; } }
+    #[kani::proof] #[kani::unwind(8)] fn g6_grid_src_4() { let mut j = 0; while j < 6 { grid_row(SIZES[4], SIZES[j]); j += 1; } }
 
-    #[kani::proof] #[kani::unwind(10)] fn g6_grid_src_5() { let mut j = 0; while j < 8 { grid_row(SIZES[5], SIZES[j]); j += 1; } }
+    #[kani::proof] #[kani::unwind(8)] fn g6_grid_src_5() { let mut j = 0; while j < 6 { grid_row(SIZES[5], SIZES[j]); j += 1; } }
 
-    #[kani::proof] #[kani::unwind(10)] fn g6_grid_src_6() { let mut j = 0; while j < 8 { grid_row(SIZES[6], SIZES[j]); j += 1; } }
 
-    #[kani::proof] #[kani::unwind(10)] fn g6_grid_src_7() { let mut j = 0; while j < 8 { grid_row(SIZES[7], SIZES[j]); j += 1; } }
 
     #[kani::proof]
     fn g6_zero_sizes() {
@@ -108,7 +106,7 @@ UNIT = dict(
     title="fit_src_into_dst_size: positive, full extent, centering identity (complete); inside / aspect (bounded where SAT does not finish)",
     assumptions=["'inside' and 'aspect' depend on a division-times-multiplication rounding fact that holds because distinct ratios of "
                  "integers <= 65535 differ by >= 2^-32; CaDiCaL does not settle it over the full range within the time box, so these two "
-                 "clauses (and the centering identity) are evaluated on a grid of 8^4 concrete size combinations x 5 centerings (bounded) in the quick tier and attempted on the full range in thorough"],
+                 "clauses (and the centering identity) are evaluated on a grid of 6^4 concrete size combinations x 5 centerings (bounded) in the quick tier and attempted on the full range in thorough"],
     kani=dict(
         functions=[dict(file=F, fn="fit_src_into_dst_size")],
         modules=[SUPPORT_MODULE, dict(file=F, name="fv_g6", code=code)],
@@ -118,28 +116,22 @@ UNIT = dict(
             dict(name="g6_centering", kind="complete", tier="thorough", timeout=2400, claim="left == (W - width) * clamp(cx,0,1) and top == (H - height) * clamp(cy,0,1)"),
             dict(name="g6_zero_sizes", kind="complete", timeout=300, claim="a zero source or destination dimension yields the whole source box"),
             dict(name="g6_grid_src_0", kind="bounded", timeout=1500,
-                 bound="source width 1 x source heights, destination sizes from {1,2,3,5,7,64,255,65535}^3, 5 centering pairs from {0, 0.5, 0.3, -2, 7.5}: 2560 concrete boxes",
+                 bound="source width 1 x source heights, destination sizes from {1,2,3,7,255,65535}^3, 5 centering pairs from {0, 0.5, 0.3, -2, 7.5}: 1080 concrete boxes",
                  claim="inside the source (crop() accepts), full extent in one dimension, left/top == margin * clamped centering, aspect within 8 ulp"),
             dict(name="g6_grid_src_1", kind="bounded", timeout=1500,
-                 bound="source width 2 x source heights, destination sizes from {1,2,3,5,7,64,255,65535}^3, 5 centering pairs from {0, 0.5, 0.3, -2, 7.5}: 2560 concrete boxes",
+                 bound="source width 2 x source heights, destination sizes from {1,2,3,7,255,65535}^3, 5 centering pairs from {0, 0.5, 0.3, -2, 7.5}: 1080 concrete boxes",
                  claim="inside the source (crop() accepts), full extent in one dimension, left/top == margin * clamped centering, aspect within 8 ulp"),
             dict(name="g6_grid_src_2", kind="bounded", timeout=1500,
-                 bound="source width 3 x source heights, destination sizes from {1,2,3,5,7,64,255,65535}^3, 5 centering pairs from {0, 0.5, 0.3, -2, 7.5}: 2560 concrete boxes",
+                 bound="source width 3 x source heights, destination sizes from {1,2,3,7,255,65535}^3, 5 centering pairs from {0, 0.5, 0.3, -2, 7.5}: 1080 concrete boxes",
                  claim="inside the source (crop() accepts), full extent in one dimension, left/top == margin * clamped centering, aspect within 8 ulp"),
             dict(name="g6_grid_src_3", kind="bounded", timeout=1500,
-                 bound="source width 5 x source heights, destination sizes from {1,2,3,5,7,64,255,65535}^3, 5 centering pairs from {0, 0.5, 0.3, -2, 7.5}: 2560 concrete boxes",
+                 bound="source width 7 x source heights, destination sizes from {1,2,3,7,255,65535}^3, 5 centering pairs from {0, 0.5, 0.3, -2, 7.5}: 1080 concrete boxes",
                  claim="inside the source (crop() accepts), full extent in one dimension, left/top == margin * clamped centering, aspect within 8 ulp"),
             dict(name="g6_grid_src_4", kind="bounded", timeout=1500,
-                 bound="source width 7 x source heights, destination sizes from {1,2,3,5,7,64,255,65535}^3, 5 centering pairs from {0, 0.5, 0.3, -2, 7.5}: 2560 concrete boxes",
+                 bound="source width 255 x source heights, destination sizes from {1,2,3,7,255,65535}^3, 5 centering pairs from {0, 0.5, 0.3, -2, 7.5}: 1080 concrete boxes",
                  claim="inside the source (crop() accepts), full extent in one dimension, left/top == margin * clamped centering, aspect within 8 ulp"),
             dict(name="g6_grid_src_5", kind="bounded", timeout=1500,
-                 bound="source width 64 x source heights, destination sizes from {1,2,3,5,7,64,255,65535}^3, 5 centering pairs from {0, 0.5, 0.3, -2, 7.5}: 2560 concrete boxes",
-                 claim="inside the source (crop() accepts), full extent in one dimension, left/top == margin * clamped centering, aspect within 8 ulp"),
-            dict(name="g6_grid_src_6", kind="bounded", timeout=1500,
-                 bound="source width 255 x source heights, destination sizes from {1,2,3,5,7,64,255,65535}^3, 5 centering pairs from {0, 0.5, 0.3, -2, 7.5}: 2560 concrete boxes",
-                 claim="inside the source (crop() accepts), full extent in one dimension, left/top == margin * clamped centering, aspect within 8 ulp"),
-            dict(name="g6_grid_src_7", kind="bounded", timeout=1500,
-                 bound="source width 65535 x source heights, destination sizes from {1,2,3,5,7,64,255,65535}^3, 5 centering pairs from {0, 0.5, 0.3, -2, 7.5}: 2560 concrete boxes",
+                 bound="source width 65535 x source heights, destination sizes from {1,2,3,7,255,65535}^3, 5 centering pairs from {0, 0.5, 0.3, -2, 7.5}: 1080 concrete boxes",
                  claim="inside the source (crop() accepts), full extent in one dimension, left/top == margin * clamped centering, aspect within 8 ulp"),
             dict(name="g6_inside_full", kind="complete", tier="thorough", timeout=2400, claim="inside clause, sizes 1..65535"),
             dict(name="g6_aspect_full", kind="complete", tier="thorough", timeout=2400, claim="aspect clause, sizes 1..65535"),
